@@ -385,6 +385,66 @@ Definition pianoroll_to_notearray (rows cols : Z) (m : list cell) (time_div : Z)
               (decode_frames rows cols m)) in
   if rows =? 128 then out 0 else if rows =? 88 then out 21 else None.
 
+(* The same decoding as the code performs it: ONE pass over the columns with a dictionary of the
+   sounding notes (`active_notes`: row -> [velocity, first column]; insertion-ordered like a Python dict)
+   and a list of finished notes.  Proofs/C13_scan.v proves that this column scan and the row-wise
+   decoder above return the same notes (Permutation) for every roll. *)
+Definition active := list (Z * (Z * Z)).     (* row, (velocity, first column) *)
+
+Fixpoint act_find (r : Z) (a : active) : option (Z * Z) :=
+  match a with
+  | [] => None
+  | (r', x) :: t => if r =? r' then Some x else act_find r t
+  end.
+
+Fixpoint act_remove (r : Z) (a : active) : active :=
+  match a with
+  | [] => []
+  | (r', x) :: t => if r =? r' then t else (r', x) :: act_remove r t
+  end.
+
+(* a note leaves the dictionary at column ts: [row, velocity, first, ts] *)
+Definition ended (ts : Z) (e : Z * (Z * Z)) : dnote := let '(r, (v, a)) := e in (r, a, ts, v).
+
+(* `for note in active:` -- one sounding row r of column ts (rows holding 0 are not in `active`) *)
+Definition scan_row (col : Z -> Z) (ts : Z) (s : active * list dnote) (r : Z) : active * list dnote :=
+  let v := col r in
+  if v =? 0 then s
+  else
+    let '(ac, ou) := s in
+    match act_find r ac with
+    | None => (ac ++ [(r, (v, ts))], ou)
+    | Some (v', a) =>
+        if v =? v' then s
+        else (act_remove r ac ++ [(r, (v, ts))], ou ++ [(r, a, ts, v')])
+    end.
+
+(* one column: first the notes of the dictionary that no longer sound are moved to the list (in
+   dictionary order), then the sounding rows are visited in ascending order *)
+Definition scan_col (rows : list Z) (col : Z -> Z) (ts : Z) (s : active * list dnote) : active * list dnote :=
+  let '(act, out) := s in
+  let gone := filter (fun e : Z * (Z * Z) => col (fst e) =? 0) act in
+  let kept := filter (fun e : Z * (Z * Z) => negb (col (fst e) =? 0)) act in
+  fold_left (scan_row col ts) rows (kept, out ++ map (ended ts) gone).
+
+Fixpoint scan (rows : list Z) (f : Z -> Z -> Z) (n : nat) (ts : Z) (s : active * list dnote) : active * list dnote :=
+  match n with
+  | O => s
+  | S k => scan rows f k (ts + 1) (scan_col rows (fun r => f r ts) ts s)
+  end.
+
+(* ... `append any note left`, then the sort *)
+Definition scan_frames (rows cols : Z) (m : list cell) : list dnote :=
+  let '(act, out) := scan (zrange 0 (Z.to_nat rows)) (cell_at m) (Z.to_nat cols) 0 ([], []) in
+  sort_dn (out ++ map (ended (Z.of_nat (Z.to_nat cols))) act).
+
+Definition pianoroll_to_notearray_scan (rows cols : Z) (m : list cell) (time_div : Z) : option (list (Z * Q * Q * Z)) :=
+  let out init :=
+    Some (map (fun x : dnote => let '(p, a, b, v) := x in
+                 (p + init, (inject_Z a / inject_Z time_div)%Q, (inject_Z (b - a) / inject_Z time_div)%Q, v))
+              (scan_frames rows cols m)) in
+  if rows =? 128 then out 0 else if rows =? 88 then out 21 else None.
+
 (* ------------------------------------------------------------------------- *)
 (* checkers used by the correspondence (implementation output printed as Coq terms) *)
 
@@ -461,10 +521,10 @@ Fixpoint perm_eqb {A} (eqb : A -> A -> bool) (a b : list A) : bool :=
 
 Definition check_decode (x : Z * Z * list cell * Z * option (list (Z * Q * Q * Z))) : bool :=
   let '(rows, cols, m, td, ob) := x in
-  match pianoroll_to_notearray rows cols m td, ob with
-  | None, None => true
-  | Some l, Some l' => perm_eqb qnote_eqb l l'
-  | _, _ => false
+  match pianoroll_to_notearray rows cols m td, pianoroll_to_notearray_scan rows cols m td, ob with
+  | None, None, None => true
+  | Some l, Some ls, Some l' => perm_eqb qnote_eqb l l' && perm_eqb qnote_eqb ls l'
+  | _, _, _ => false
   end.
 
 (* round trip: the model's decoder on the model's roll of the case = the note array the implementation
